@@ -1,7 +1,8 @@
 """C07 -- cluster analysis yields the overlap-connected partition.
 
 proof  : coq/Props/Properties_C07.v (partition, refinement, = chain-connected components inside each
-         old cluster, newton-isolation override, parallel variant = sequential for every splice order).
+         old cluster, newton-isolation override as coded, parallel variant = sequential for every splice order,
+         whole property for one call C07_step_fd_full / C07_step_m_full; mps_ftouchnwt end to end on binary64).
 tie    : harness/c07_cluster.c runs mps_fcluster / mps_dcluster / mps_mcluster (real threads) and exports
          the implementation's own touch matrices and the resulting clusterization; the property predicate
          (partition, refinement, connected components unless override) is evaluated in python on that
@@ -126,6 +127,42 @@ def norm53(t):
     return (m, e)
 
 
+def frac_tok(q):
+    """(m, e) with m < 2^53 and m 2^e >= q (rounded up)"""
+    if q == 0: return (0, 0)
+    e = (q.numerator.bit_length() - q.denominator.bit_length()) - 52
+    sc = q / (Fraction(2) ** e)
+    m = -(-sc.numerator // sc.denominator)
+    if m >= (1 << 53): m = (m + 1) // 2; e += 1
+    return (m, e)
+
+
+def pair_radii(rng, n, nf, X, Y, wmode, old):
+    """stored (Newton) radii aimed at the override test: every radius 0 except for ONE pair (i, j), whose radii make exactly
+    that pair touch with factor nf (possibly closer roots as well); pair-first / pair-last involve root 0 / n-1 (first and
+    last row of the double loop), pair-in / pair-across take the pair inside one / across two previous clusters"""
+    W = [(0, 0)] * n
+    if n < 2: return W
+    if wmode == "pair-first": i, j = 0, rng.randrange(1, n)
+    elif wmode == "pair-last": i, j = n - 1, rng.randrange(0, n - 1)
+    elif wmode == "pair-ends": i, j = 0, n - 1
+    else:
+        i, j = rng.sample(range(n), 2)
+        if old:
+            big = [c for c in old if len(c) >= 2]
+            if wmode == "pair-in" and big:
+                i, j = rng.sample(rng.choice(big), 2)
+            elif wmode == "pair-across" and len([c for c in old if c]) >= 2:
+                a, b = rng.sample([c for c in old if c], 2); i, j = rng.choice(a), rng.choice(b)
+    if rng.random() < 0.5: i, j = j, i
+    vi = (val(X[i]), val(Y[i])); vj = (val(X[j]), val(Y[j]))
+    dx, dy = vi[0] - vj[0], vi[1] - vj[1]
+    d = fsqrt_frac(dx * dx + dy * dy) * (1 + Fraction(1, 1 << 20))
+    r = frac_tok(d / (2 * nf))
+    W[i] = r; W[j] = r
+    return W
+
+
 def make_case(rng, cid, variant, n, gen, part, wmode, nf=None, threads=None):
     if nf is None:
         nf = rng.choice([1, 2, 2 * n, 2 * n, 4, 3])
@@ -137,7 +174,10 @@ def make_case(rng, cid, variant, n, gen, part, wmode, nf=None, threads=None):
     if huge:
         gen = "random-huge"
         for _ in range(rng.randint(1, 2)): G[rng.randrange(n)] = ("MAX", 0)
-    if wmode == "big":
+    old = rand_partition(rng, n, part)
+    if wmode.startswith("pair"):
+        W = pair_radii(rng, n, nf, X, Y, wmode, old)
+    elif wmode == "big":
         W = [g if g[0] == "MAX" else (g[0] * 4 + 1, g[1]) for g in G]
     elif wmode == "tiny":
         W = [(0, 0)] * n
@@ -146,7 +186,7 @@ def make_case(rng, cid, variant, n, gen, part, wmode, nf=None, threads=None):
     c = {"id": cid, "variant": variant, "n": n, "nf": nf,
          "threads": threads if threads is not None else (rng.randint(1, 8) if variant == "m" else 1),
          "prec": rng.choice([64, 64, 128, 256]) if variant == "m" else 64,
-         "old": rand_partition(rng, n, part), "gen": gen, "part": part, "wmode": wmode,
+         "old": old, "gen": gen, "part": part, "wmode": wmode,
          "X": [norm53(t) for t in X], "Y": [norm53(t) for t in Y], "G": [norm53(t) for t in G],
          "W": [norm53(t) for t in W]}
     return c
@@ -154,7 +194,7 @@ def make_case(rng, cid, variant, n, gen, part, wmode, nf=None, threads=None):
 
 GENS = ["random", "random", "random", "chain", "chain-tangent", "star", "coincident", "zero", "boundary"]
 PARTS = ["one", "one", "random", "random", "random-empty", "two", "singles"]
-WMODES = ["big", "big", "big", "same", "tiny"]
+WMODES = ["big", "big", "big", "same", "tiny", "pair-in", "pair-across", "pair-first", "pair-last", "pair-ends"]
 
 
 def gen_cases(ctx, total):
@@ -326,7 +366,7 @@ def parse_model(out):
     for line in out.splitlines():
         f = line.split(" ")
         if len(f) == 2: res[f[0]] = None; continue
-        res[f[0]] = {"iso": f[1][4:], "raw": f[2][4:], "canon": f[3][6:], "comp": f[4][5:]}
+        res[f[0]] = {"iso": f[1][4:], "raw": f[2][4:], "canon": f[3][6:], "comp": f[4][5:], "plain": f[5][6:] if len(f) > 5 else f[1][4:]}
     return res
 
 
@@ -381,6 +421,21 @@ def process(ctx, hbin, cases, stats, samples):
             ms = [mres.get("%s@%s" % (c["id"], p)) for p in ("first", "last", "h%d" % (c["n"] + 1))]
             ok = all(m is not None and m["canon"] == fmt_old(canon(new)) for m in ms)
             m = ms[0]; mcanon = m and m["canon"]
+        # the override test as coded (model) against the plain test and against the exported matrix TN
+        if m is not None:
+            ov = stats.setdefault("override", {"by_wmode": {}, "by_previous": {}, "touching_pairs_in_TN": {}, "model_as_coded_eq_plain": 0})
+            n_ = c["n"]; TN = h["TN"]
+            npairs = sum(1 for i in range(n_) for j in range(i) if TN[i * n_ + j] == "1" or TN[j * n_ + i] == "1")
+            isz = sorted(len(cl) for cl in c["old"] if cl)
+            pk = "all-singletons" if isz and isz[-1] == 1 else "one-cluster" if len(isz) == 1 else "max<=3" if isz and isz[-1] <= 3 else "max>3"
+            tk = "taken" if c.get("_iso") else "not-taken"
+            for key, name in ((c["wmode"], "by_wmode"), (pk, "by_previous"), ("0" if npairs == 0 else "1" if npairs == 1 else "2-5" if npairs <= 5 else ">5", "touching_pairs_in_TN")):
+                d = ov[name].setdefault(key, {"taken": 0, "not-taken": 0}); d[tk] += 1
+            if m["iso"] == m["plain"]: ov["model_as_coded_eq_plain"] += 1
+            if m["iso"] != m["plain"] or (m["iso"] == "1") != bool(c.get("_iso")):
+                ctx.violation("correspondence:override-test:%s" % c["variant"],
+                              "newton-isolation test as coded (model) = %s, plain test = %s, all pairs of the exported TN separated = %s on %s"
+                              % (m["iso"], m["plain"], c.get("_iso"), c["id"]), replay, no_input=True)
         if m is not None and m["comp"] != "-" and not c.get("_iso"):
             stats["spec_compared"] += 1
             if m["comp"] != fmt_old(components_py(c["n"], h["T"], c["old"])):
@@ -835,6 +890,7 @@ def run(ctx):
         "harness_mode": HARNESS_MODE,
         "scheduler_shim": stats.get("shim", {}),
         "ftouch_binary64": stats.get("ftouch", {}),
+        "override_test": stats.get("override", {}),
         "trusted_base": [
             "Coq 8.16.1 kernel; cluster theorems closed under the global context; touch theorems use the stdlib real-number axioms listed in axioms_used",
             "extraction (ExtrOcamlBasic, ExtrOcamlNativeString only) + ocaml/cluster_driver.ml (touch matrix passed as an OCaml closure over the exported string)",
